@@ -111,6 +111,7 @@ let parse_op (toks : string list) : op =
             else Inl (nat_of_int (int_of_string pos)) in
     OpFromState (id i, enc, darg key, darg iv, p)
   | ["clone"; i; j] -> let a = id i in let b = id j in OpClone (a, b)
+  | ["clonefrom"; i; j] -> let a = id i in let b = id j in OpCloneFrom (a, b)
   | ["drop"; i] -> OpDrop (id i)
   | "blk" :: i :: a -> place a >>= fun p -> OpBlk (id i, p)
   | "blks" :: i :: a -> place a >>= fun p -> OpBlks (id i, p)
